@@ -203,6 +203,22 @@ Definition mon_C02_rpc (tr : trace) (r : N) (sh : shape) (md cmd : option mdt) (
    | Some (a, REof, _, _, _, _, _, _, _), None => fl 202 a (zr r) 0
    | _, _ => []
    end) ++
+  (* an RPC the server refused (no handler ever ran): the caller's terminal result is the status of
+     the close frame that was handed to its endpoint (212) *)
+  (match term, hs, stream_of r tr with
+   | Some (a, x, _, _, _, _, _, _, _), None, Some tid =>
+       let tr_a := filter (fun e => fst e <=? a) tr in   (* nothing local may explain the result: no cancel, no deadline, no tunnel end up to then *)
+       if local_cause r to tr_a || existsb (fun e => match snd e with HStart r' _ _ _ _ _ _ => N.eqb r r' | _ => false end) tr then []
+       else
+         match flat_map (fun y => match y with
+                                  | (ad, S2C, t, id, KClose st _) =>
+                                      if N.eqb t (fst tid) && Z.eqb id (snd tid) && (ad <=? a) then [st] else []
+                                  | _ => [] end) (deliveries tr) with
+         | st :: _ => if res_is_ok st || is_code st 0 || status_matches x st then [] else fl 212 a (zr r) 0
+         | [] => []
+         end
+   | _, _, _ => []
+   end) ++
   (* a non-streaming response: a successful receive is the caller's completion with OK, so the
      handler must have returned OK (code 211) *)
   (if server_streams sh then [] else
